@@ -303,6 +303,8 @@ func targets() []*target {
 		bufT("ReadRune", "buf_read_rune", nil, "bres (Z * Z * err) bstate", "", true),
 		bufT("UnreadRune", "buf_unread_rune", nil, "bres err bstate", "", true),
 		bufT("UnreadByte", "buf_unread_byte", nil, "bres err bstate", "", true),
+		// the io.Writer is an oracle: it answers (w_m, w_e); what it was handed is the trace tr_
+		bufT("WriteTo", "buf_write_to", []string{"(w : unit)", "(w_m : Z)", "(w_e : err)", "(tr_ : list bytes)"}, "bres (Z * err) (bstate * list bytes)", "", true),
 	}
 }
 
@@ -329,6 +331,12 @@ func bufT(fn, coq string, params []string, result, final string, eff bool) *targ
 		if fn == "Read" {
 			t.effects = append(t.effects, "p")
 			st = "(s_buf, s_off, s_lastRead, p)"
+		}
+		if fn == "WriteTo" {
+			t.effects = append(t.effects, "tr_")
+			st = "(s_buf, s_off, s_lastRead, tr_)"
+			t.calls["io.Writer.Write"] = callSpec{res: "(w_m, w_e)", ev: "sl_bytes %0"}
+			t.nilTest = map[string]string{"err": "err_is_enil"}
 		}
 		t.panicT, t.panicFmt, t.okfmt = "BRange "+st, "BPanic %s "+st, "BOk (%s) %s"
 		t.final = "BOk tt " + st
